@@ -8,7 +8,7 @@ from ..lib import Facts, calls_in, len_eq, own_nodes, stmt_of
 from ..model import AnalysisError, FuncInfo
 from ..report import Run
 from ..spec import canon, drop_sites, spec_function
-from ..terms import root_of, TermCtx, contains, show, strip_sites, strip_visits, unphi_terms
+from ..terms import subterms, root_of, TermCtx, contains, show, strip_sites, strip_visits, unphi_terms
 from ..visitors import LAMBDA_ARG_KINDS
 
 EXPLANATION = (
@@ -50,6 +50,7 @@ def check(run: Run) -> None:
     run.rule("C02.R3c", "beta-reduction guarded: no keywords, no starred, no defaults/varargs/kw-only/pos-only, positional count == parameter count")
     run.rule("C02.R3d", "visit_Lambda shadows all five parameter kinds for the extent of the body")
     run.rule("C02.R3e", "descending under a binder with substitutions pending renames the binder (or proves arguments closed): no capture")
+    run.rule("C02.R3f", "the names a call frame binds are fresh (make_args_unique'd parameters): text already substituted is visited again by the fusion rules and must not meet its own parameter name")
     ctx = TermCtx(m, opaque=fusion.OPAQUE, identity={"lambda_unwrap"}, max_depth=5)
     mod = "func_adl.ast.function_simplifier"
     cls = m.find_class("simplify_chained_calls", in_module=mod)
@@ -339,9 +340,11 @@ def _len_source(t):
     return None
 
 
-def _check_beta(run: Run, ctx, m, cls, vc: FuncInfo) -> None:
+def _check_beta(run: Run, ctx0, m, cls, vc: FuncInfo) -> None:
     from ..lib import call_events, site_owner
 
+    # the shape rules (R3a-R3c) read the reduction with "parameters renamed to fresh names" seen through
+    ctx = TermCtx(m, opaque=set(ctx0.opaque) - {"make_args_unique"}, identity=set(ctx0.identity) | {"make_args_unique"}, max_depth=ctx0.max_depth)
     # the reduction may live in visit_Call or in a private helper it hands the call node to
     vc0 = vc
     vc, inv = site_owner(m, ctx, vc0, "stack_frame")
@@ -375,20 +378,44 @@ def _check_beta(run: Run, ctx, m, cls, vc: FuncInfo) -> None:
     # R3a: arguments are visited, and visited before the callee's frame is pushed
     body_t = ("attr", ("attr", nodep, "func"), "body")
     arg_elem = ("visit", ("elem", ("attr", nodep, "args")))
+    # With fresh frame keys (R3f) an argument may just as well be visited inside the frame - nothing in it can be
+    # one of the keys; with the lambda's own parameter names as keys the order decides which binder a name meets.
+    keys_fresh = _check_fresh_frame_keys(run, ctx0, m, cls, vc, w)
     for c in calls_in(vc):
         if isinstance(c.func, ast.Attribute) and c.func.attr == "visit" and c.args and id(c) in inside and fa.cfg.has_node(c):
             t = strip_sites(fa.term_of(c.args[0]))
+            if keys_fresh and t != body_t:
+                run.ok("C02.R3a", vc, "argument visited inside a frame whose keys are fresh names", show(t)[:80])
+                continue
             run.check(t == body_t, "C02.R3a", vc, stmt_of(c), "inside the callee's frame only the lambda body is visited", f"{show(t)[:80]} is visited inside the callee's frame: if it is (part of) an argument, names in it that coincide with parameters already defined are resolved against the callee's bindings instead of the caller's", "arg_asts = [self.visit(a) for a in call_node.args] before `with stack_frame`", show(t))
     for d in defines:
         if len(d.args) == 2:
             vt = d.args[1]
-            run.check(contains(vt, lambda s: s == arg_elem), "C02.R3a", vc, d.at, "the value bound to a parameter is a visited argument", f"parameter bound to {show(vt)[:140]}: the call's arguments are not visited before substitution (outer substitutions are not applied to them)", "self.visit(a) for a in call_node.args", show(vt))
             nt = d.args[0]
-            ok_n = nt[0] == "attr" and nt[2] == "arg" and contains(nt, lambda s: s == ("attr", ("attr", ("attr", nodep, "func"), "args"), "args"))
+            params_t = ("attr", ("attr", ("attr", nodep, "func"), "args"), "args")
+            args_t = ("attr", nodep, "args")
+            ok_n = nt[0] == "attr" and nt[2] == "arg" and contains(nt, lambda s: s == params_t)
             run.check(ok_n, "C02.R3a", vc, d.at, "the name bound is a parameter of the called lambda", f"define_name binds {show(nt)[:100]}")
-            # positional pairing: zip(params, visited args) in the same order
-            zipped = [x for x in unphi_terms(vt)]
-            pair_ok = contains(vt, lambda s: s[0] == "app" and s[1] == ("global", "builtins.zip") and len(s[2]) == 2 and s[2][0] == ("attr", ("attr", ("attr", nodep, "func"), "args"), "args")) and vt[0] == "index" and vt[2] == 1 and nt[1][0] == "index" and nt[1][2] == 0
+            # positional pairing: name and value are the two components of one zip(params, args) element; the argument
+            # is visited either before zipping (list / generator of visited arguments) or as it is bound
+            zips = [z for z in subterms(vt) if isinstance(z, tuple) and z and z[0] == "app" and z[1] == ("global", "builtins.zip") and len(z[2]) == 2]
+            pair_ok = visited = False
+            for z in zips:
+                elem = ("elem", z)
+                if nt != ("attr", ("index", elem, 0), "arg") or z[2][0] != params_t:
+                    continue
+                second = z[2][1]
+                if vt == ("index", elem, 1):
+                    pair_ok = True
+                    visited = second[0] == "comp" and second[2] == arg_elem if second[0] == "comp" else False
+                    if second[0] == "comp":
+                        visited = second[2] == arg_elem and len(second[3]) == 1 and second[3][0][0] == args_t and not second[3][0][1]
+                elif vt == ("visit", ("index", elem, 1)):
+                    pair_ok = True
+                    visited = second == args_t
+            if not zips:
+                visited = contains(vt, lambda s: s == arg_elem)
+            run.check(visited, "C02.R3a", vc, d.at, "the value bound to a parameter is a visited argument", f"parameter bound to {show(vt)[:140]}: the call's arguments are not visited before substitution (outer substitutions are not applied to them)", "self.visit(a) for a in call_node.args", show(vt))
             run.check(pair_ok, "C02.R3a", vc, d.at, "parameters and arguments are paired positionally (zip(params, args))", f"parameters and arguments are not paired as zip(lambda.args.args, visited args): name {show(nt)[:60]} <- {show(vt)[:80]}")
     # body visited inside the frame and returned
     for s, n in fa.returns():
@@ -397,6 +424,50 @@ def _check_beta(run: Run, ctx, m, cls, vc: FuncInfo) -> None:
             run.check(id(s) in inside, "C02.R3b", vc, s, "the body is visited inside the frame", "the lambda body is visited outside the frame that binds its parameters")
             # R3c guard
             _check_reduction_guard(run, ctx, m, vc, fa, s, nodep)
+
+
+def _check_fresh_frame_keys(run: Run, ctx0, m, cls, vc: FuncInfo, w: ast.With) -> bool:
+    """R3f. The fusion rules visit what they build, and what they build contains pieces that were visited
+    before (the visited source, the visited First() operand): inside the frame of a called lambda those pieces
+    - argument text already substituted - are looked up again. (lambda y: Where(Where(y, f), g))(y.jets) inside
+    `lambda y` turned into Where(y.jets.jets, ..). The second look-up is harmless exactly when no frame key can
+    occur in substituted text: keys are names made by make_args_unique / arg_name (call frames), or bound to
+    themselves (lambda frames, R3d)."""
+    from ..lib import call_events
+
+    # a design that hides the pending frames while re-visiting (swapping the stack) is not read here
+    for f_ in cls.methods.values():
+        if f_.name == "__init__":
+            continue
+        for n in own_nodes(f_):
+            if isinstance(n, (ast.Assign, ast.AugAssign)):
+                for t_ in n.targets if isinstance(n, ast.Assign) else [n.target]:
+                    if isinstance(t_, ast.Attribute) and isinstance(t_.value, ast.Name) and t_.value.id == "self" and "stack" in t_.attr:
+                        raise AnalysisError(f"{f_.name} replaces the argument stack ({ast.unparse(t_)}): re-visits may run against other frames than the pending ones; not analysed")
+    inside = {id(x) for x in ast.walk(w)}
+    n_keys = 0
+    all_fresh = True
+    for ev in call_events(ctx0, vc, lambda nm: nm == "define_name"):
+        at = stmt_of(ev.call) if ev.owner is vc else ev.site.stmt
+        if at is None or id(at) not in inside or len(ev.args) != 2:
+            continue
+        n_keys += 1
+        kt = ev.args[0]
+        fresh = contains(kt, lambda s: s[0] == "app" and s[1][0] == "global" and s[1][1].rsplit(".", 1)[-1].rsplit(":", 1)[-1] in ("make_args_unique", "arg_name"))
+        all_fresh = all_fresh and fresh
+        run.check(
+            fresh,
+            "C02.R3f",
+            vc,
+            at,
+            "call-frame key is a fresh name",
+            f"the frame of a called lambda binds the lambda's own parameter name ({show(kt)[:90]}): argument text that mentions the same name - (lambda y: Where(Where(y, f), g))(y.jets) inside `lambda y` - is substituted once when the body is visited and again when the fused call is re-visited inside the frame, giving y.jets.jets",
+            "func = make_args_unique(call_node.func); define_name(<its parameter>, <visited argument>)",
+            show(kt),
+            key="call-frame key is the lambda's own parameter name",
+        )
+    run.floor("C02.R3f", n_keys, 1, "names bound in the called lambda's frame")
+    return all_fresh and n_keys > 0
 
 
 def _path_names(t):
